@@ -106,6 +106,12 @@ Proof.
   apply ends_tail_app. apply ends_tail_cons. apply ends_tail_snoc. reflexivity.
 Qed.
 Lemma sugarable_ne args : sugarable args = true -> args <> []. Proof. destruct args; [discriminate|discriminate]. Qed.
+Lemma ends_tail_brk b xs : ends_tail (brk b xs).
+Proof.
+  unfold brk. destruct b.
+  - do 2 apply ends_tail_cons. apply ends_tail_app. apply (ends_tail_app [sp]). apply ends_tail_one. reflexivity.
+  - apply ends_tail_cons. apply ends_tail_snoc. reflexivity.
+Qed.
 Lemma tail_pexp : forall e d, wfe e -> ends_tail (pexp d e).
 Proof.
   induction e using exp_ind'; intros d W; try (apply ends_tail_one; reflexivity).
@@ -115,7 +121,7 @@ Proof.
   - (* name *) apply ends_tail_one. apply tail_name. exact W.
   - (* long string: outside the premise *) destruct W.
   - (* field *) cbn [Fmt0.pexp]. destruct W as (_ & _ & Wn). apply ends_tail_app. apply ends_tail_cons. apply ends_tail_one. apply tail_name. exact Wn.
-  - (* index *) cbn [Fmt0.pexp]. apply ends_tail_app. apply ends_tail_cons. apply ends_tail_snoc. reflexivity.
+  - (* index *) cbn [Fmt0.pexp]. apply ends_tail_app. apply ends_tail_brk.
   - (* call *) cbn [Fmt0.pexp]. destruct W as (_ & _ & Wa). apply ends_tail_app. apply tail_pargs. intros S. apply andb_true_iff in S. destruct S as [_ S].
     apply ends_tail_commas; [intros Q; apply map_eq_nil in Q; exact (sugarable_ne args S Q)|]. apply (wfl_tails d args false H). exact Wa.
   - (* method *) cbn [Fmt0.pexp]. destruct W as (_ & _ & _ & Wa). apply ends_tail_app. apply ends_tail_cons. apply ends_tail_cons. apply tail_pargs. intros S. apply andb_true_iff in S. destruct S as [_ S].
@@ -128,7 +134,7 @@ Proof.
     do 2 apply ends_tail_cons. apply ends_tail_app. apply (ends_tail_app [sp]). apply ends_tail_one. reflexivity.
   - (* positional field *) cbn [Fmt0.pexp]. destruct W as (Wx & _). apply IHe. exact Wx.
   - (* named field *) cbn [Fmt0.pexp]. destruct W as (_ & Wx & _). do 4 apply ends_tail_cons. apply IHe. exact Wx.
-  - (* keyed field *) cbn [Fmt0.pexp]. destruct W as (_ & _ & Wx & _). apply ends_tail_cons. apply ends_tail_app. do 4 apply ends_tail_cons. apply IHe2. exact Wx.
+  - (* keyed field *) cbn [Fmt0.pexp]. destruct W as (_ & _ & Wx & _). apply ends_tail_app. do 3 apply ends_tail_cons. apply IHe2. exact Wx.
   - (* table over several lines *) destruct fs as [|f fs]; [apply (ends_tail_app [kw "{"]); apply ends_tail_one; reflexivity|].
     rewrite p_tableml. do 2 apply ends_tail_cons. apply ends_tail_app. apply ends_tail_app. apply ends_tail_one. reflexivity.
   - (* a line of such a table, on its own *) cbn [Fmt0.pexp]. destruct W as (Wf & _). apply IHe. exact Wf.
